@@ -25,6 +25,15 @@ func init() {
 			mk("update‖Advance;CleanUp", []string{"set 1"}, [][]string{{"set 1"}, {adv, "cleanup"}})
 			mk("SetExpiresAfter‖Advance;CleanUp", []string{"set 1"}, [][]string{{"sea 1 20"}, {adv, "cleanup"}})
 		}
+		// a late reader / SetIfAbsent (older clock sample, access-based expiry) extends the deadline after the wheel has
+		// selected the entry: whatever the sweep decides, a later CleanUp past the new deadline must find nothing left
+		for _, late := range []string{"get 1", "sia 1"} {
+			big := CacheCfg{Expiry: "accessing", TTL: 10 * tickNs, Executor: "caller", ClockStart: 1 << 40}
+			p := concParams{Label: "late " + late + "‖sweep", Cfg: big, Setup: []string{"set 1", "set 2", fmt.Sprintf("adv %d", 10*tickNs-10)},
+				Threads: [][]string{{late}, {fmt.Sprintf("adv %d", 2*tickNs), "cleanup"}}, Oracles: []string{"swept"},
+				Post: []string{fmt.Sprintf("adv %d", 30*tickNs), "cleanup"}}
+			jobs = append(jobs, &Job{Scenario: "cache.conc", Params: js(p), PB: pb, Shards: 8, BudgetS: budget, Need: []string{"swept-checked"}})
+		}
 		return jobs
 	}
 	seq20 := plans["C20"]
@@ -58,6 +67,10 @@ func init() {
 			mk("invalidate‖insert-evict", CacheCfg{MaxSize: 2}, []string{"set 1", "set 2"}, [][]string{{"inv 1"}, {"set 3"}})
 			mk("update‖setmax", CacheCfg{MaxWeight: 4}, []string{"set 1 2", "set 2 1"}, [][]string{{"set 1 1"}, {"setmax 1"}})
 			mk("update‖expire", CacheCfg{Expiry: "writing", TTL: 10, ClockStart: 1 << 40}, []string{"set 1", "set 2"}, [][]string{{"set 1"}, {"adv 5000000000", "cleanup"}})
+			// a late reader (oldest clock sample) moves the deadline back while a Compute that found the entry alive is in
+			// its callback: the lookup stays a hit
+			mk("lateReader‖extend;Compute", CacheCfg{Expiry: "accessing", TTL: 100, ClockStart: 1 << 40}, []string{"set 1", "adv 60"},
+				[][]string{{"get 1"}, {"adv 30", "get 1", "adv 80", "cw 1"}})
 			// systematic matrix: every counting operation against every kind of writer on a bounded cache (nodes get retired)
 			for _, rd := range []string{"get 1", "gete 1", "load 1 val", "cw 1", "cc 1", "cia 1", "cipw 1", "bulk 1,2 full"} {
 				for _, wr := range []string{"set 1", "inv 1", "set 3", "invall"} {
